@@ -146,13 +146,13 @@ type evidence struct {
 
 type finishOpts struct {
 	Tier, EvidencePath, ReplayDir string
-	Seed                           int
-	Wall                           float64
-	Known                          *Known
-	Explanation                    string
-	Configs                        []string
-	Only                           string // replay: restrict verdict to this key
-	Extra                          map[string]any
+	Seed                          int
+	Wall                          float64
+	Known                         *Known
+	Explanation                   string
+	Configs                       []string
+	Only                          string // replay: restrict verdict to this key
+	Extra                         map[string]any
 }
 
 // finish prints diagnostics, writes evidence and replay files, returns exit code.
